@@ -109,6 +109,41 @@ async fn run_case(dir: &std::path::Path, case: &Value) -> Vec<Value> {
             ev.push(json!({"ev": "fnonreg", "target": target, "refused": r.is_err(),
                            "panic": r.as_ref().err().map(|e| e.starts_with("panic")).unwrap_or(false)}));
         }
+        "echo" => {
+            // two-request history over a real file (C14): validators copied verbatim from the first
+            // response into the second request
+            let size = case["size"].as_u64().unwrap_or(10);
+            let mt = (case["mt_s"].as_u64().unwrap_or(1_000_000_000), case["mt_ns"].as_u64().unwrap_or(0) as u32);
+            drop(make_file(&p, size, mt));
+            let open = || Crf::new(std::fs::File::open(&p).unwrap(), http::HeaderMap::new()).unwrap();
+            let req1 = http::Request::builder().method("GET").uri("/").body(()).unwrap();
+            let r1 = http_serve::serve(open(), &req1);
+            let mut b2 = http::Request::builder().method(case["emethod"].as_str().unwrap_or("GET")).uri("/");
+            let mut applied = Vec::new();
+            for e in case["echo"].as_array().cloned().unwrap_or_default() {
+                let (src, dst) = match e.as_str().unwrap_or("") {
+                    "inm" => ("etag", "if-none-match"),
+                    "im" => ("etag", "if-match"),
+                    "ir" => ("etag", "if-range"),
+                    "ims" => ("last-modified", "if-modified-since"),
+                    "ius" => ("last-modified", "if-unmodified-since"),
+                    _ => continue,
+                };
+                if let Some(v) = r1.headers().get(src) {
+                    b2 = b2.header(dst, v.clone());
+                    applied.push(e.clone());
+                    if dst == "if-range" {
+                        b2 = b2.header("range", "bytes=0-0");
+                    }
+                }
+            }
+            let r2 = http_serve::serve(open(), &b2.body(()).unwrap());
+            let lm1 = r1.headers().get("last-modified").and_then(|v| v.to_str().ok()).and_then(|s| httpdate::parse_http_date(s).ok())
+                .map(|t| secs_ns(t).0).unwrap_or(-1);
+            ev.push(json!({"ev": "fecho", "S": applied, "status1": r1.status().as_u16(), "status2": r2.status().as_u16(),
+                           "lm1": lm1, "mt_s": mt.0, "mt_ns": mt.1, "size": size,
+                           "etag": etag_facts(&r1.headers().get("etag").cloned())}));
+        }
         "history" => {
             // a sequence of file-system operations on one path; after each, open and record
             // (version, etag)
